@@ -23,6 +23,7 @@ def get_module(ll):
 def fmt_inputs_file(inputs, path):
     with open(path, 'w') as f:
         for name, kind, val, _ in inputs:
+            name = name.replace(' ', '_') or '_'
             if kind == 'f64': f.write('%s f64 %016x\n' % (name, d2bits(float(val))))
             else: f.write('%s %s %d\n' % (name, kind, int(val)))
 
@@ -42,8 +43,7 @@ def conc_trace(ll, ob, case, inputs):
     out = []
     try:
         ex.run(ob['entry'], [iv(64, c) for c in case])
-        end = [k[7:] for k in ex.reached if k.startswith('__path_')]
-        last = end[0] if end else 'END'
+        last = getattr(ex, 'last_outcome', 'END')
     except Unsupported as e:
         return ['ENGINE-UNSUPPORTED ' + str(e).split('\n')[0][:200]]
     for t in ex.trace:
